@@ -105,6 +105,23 @@ class PtrNorm(object):
             if c and c[0] == 'method' and c[1] == 'data' and c[2] is not None and not call_args(x):
                 return ('ptr', self.keys.key(c[2]), {})
             return None
+        if k == 'CallExpr':
+            # std::prev / std::next / std::distance over pointers or iterators of one container
+            c = callee(x)
+            args = call_args(x)
+            nm = c[1].get('name') if c and c[0] == 'fn' else None
+            if nm in ('prev', 'next') and 1 <= len(args) <= 2:
+                ra = self.norm(args[0])
+                rn = self.norm(args[1]) if len(args) == 2 else ('int', None, lconst(1))
+                if ra is not None and ra[0] == 'ptr' and rn is not None and rn[0] == 'int':
+                    return ('ptr', ra[1], ladd(ra[2], rn[2], 1 if nm == 'next' else -1))
+                return None
+            if nm == 'distance' and len(args) == 2:
+                ra, rb = self.norm(args[0]), self.norm(args[1])
+                if ra is not None and rb is not None and ra[0] == rb[0] == 'ptr' and ra[1] == rb[1]:
+                    return ('int', None, ladd(rb[2], ra[2], -1))
+                return None
+            return None
         if k == 'CXXOperatorCallExpr':
             c = callee(x)
             args = call_args(x)
